@@ -229,6 +229,9 @@ class Check:
                     print(f'KNOWN-FINDING: property={self.pid} {hit.split(" ", 1)[1] if " " in hit else hit}')
                     printed.add(hit)
                 self.known_hits.append(v)
+                if v.get('replayed') is False:
+                    # a listed finding is a defect shown against the real code: if the native run no longer shows it, say so
+                    self.inconclusive.append(f'known finding {v["key"]} did not reproduce natively')
             else:
                 fresh_viol.append(v)
         code = 0
@@ -279,7 +282,7 @@ class Check:
                 'mir_dump_s': round(self.dump_s, 1),
                 'replayed_paths': self.replayed,
                 'replay_mismatches': self.replay_mismatch[:10],
-                'known_findings_met': [dict(obligation=v['obligation'], key=v['key']) for v in self.known_hits][:20],
+                'known_findings_met': [dict(obligation=v['obligation'], key=v['key'], reproduced_natively=v.get('replayed'), witness=v.get('witness')) for v in self.known_hits][:6],
                 'inconclusive': self.inconclusive[:30],
                 'samples': self.samples or ['(no samples)'],
                 'notes': self.notes,
